@@ -9,7 +9,7 @@ package soy
 //@   props C06
 //@   modifies *
 //@   loop 0
-//@     noterm
+//@     decreases scanner.left
 
 // ---------------------------------------------------------------------------
 // C09: bundles are independent. A Bundle owns its globals map (allocated by
